@@ -1359,6 +1359,15 @@ func (c *Ctx) freshElements(rel string) {
 						if len(loops) == 0 {
 							return true
 						}
+						if call, isCall := ast.Unparen(x.Value).(*ast.CallExpr); isCall {
+							// the result of a call made in this iteration: a value of its own per
+							// element (what the callee returns is the callee's business)
+							if t := info.TypeOf(call); t != nil && refLike(t) {
+								nSends++
+								c.ok()
+							}
+							return true
+						}
 						id, isID := ast.Unparen(x.Value).(*ast.Ident)
 						if !isID {
 							return true
